@@ -55,6 +55,13 @@ func c17Cases(tier string) []*space.Case {
 		{"repeated-message", func() *dsl.Field {
 			return &dsl.Field{Name: "X", Num: 1, T: dsl.Msg, Ref: "Leaf", Card: dsl.Repeated, Nullable: dsl.B(false)}
 		}},
+		// fields the generator would otherwise treat as durations / times
+		{"cast-duration", func() *dsl.Field { return &dsl.Field{Name: "X", Num: 1, T: dsl.Int64, CastType: "Duration"} }},
+		{"std-duration", func() *dsl.Field {
+			return &dsl.Field{Name: "X", Num: 1, T: dsl.Msg, Ref: dsl.Duration, StdDur: true, Nullable: dsl.B(false)}
+		}},
+		{"std-time", func() *dsl.Field { return &dsl.Field{Name: "X", Num: 1, T: dsl.Msg, Ref: dsl.Timestamp, StdTime: true} }},
+		{"enum", func() *dsl.Field { return &dsl.Field{Name: "X", Num: 1, T: dsl.Enum, Ref: "Mode"} }},
 	}
 	types := []struct{ name, typ, suffix string }{
 		{"plain-default", "Traits", ""},
